@@ -63,7 +63,11 @@ def run_case(case):
     a = observe.observe(src)
     if a['outcome'] in ('timeout', 'child-died'):
         return {'status': 'skip', 'reason': 'original: ' + a['outcome']}
-    b = observe.observe(src, perturb=50021)        # second run with shifted heap addresses: exposes id()/address dependent programs
+    b = observe.observe(src, perturb=50021)        # further runs with shifted heap addresses: expose id()/address dependent programs
+    if not observe.same(a, b):
+        b = observe.observe(src, perturb=77777)
+    if not observe.same(a, b):
+        b = observe.observe(src, perturb=31337)
     if observe.same(a, b):
         return {'status': 'skip', 'reason': 'original is not self-stable (%s)' % ','.join(observe.same(a, b))}
     res['counters']['programs_run'] = 1
@@ -116,10 +120,14 @@ def programs(tier, seed):
         yield 'modgen.guarded', s
     for i in range(150 if quick else 3000):
         yield 'litgen', litgen.generate(seed, 95000 + i)
-    for c in scopegen.enumerate_cases(max_stmt_depth=2, expr_depth=(0, 1), sample=500 if quick else 20000, seed=seed + 3):
-        yield c['shape'], c['src']
-    for c in scopegen.sampled_cases(seed + 3, 200 if quick else 6000):
-        yield c['shape'], c['src']
+    # annotation positions are left to C03/C04/C06: an annotation whose evaluation raises (a class attribute named from a method signature)
+    # stops raising once the annotation is removed - the documentation's own caveat for remove_annotations
+    for c in scopegen.enumerate_cases(max_stmt_depth=2, expr_depth=(0, 1), sample=700 if quick else 24000, seed=seed + 3):
+        if 'annotation' not in c['shape']:
+            yield c['shape'], c['src']
+    for c in scopegen.sampled_cases(seed + 3, 260 if quick else 7000):
+        if 'annotation' not in c['shape']:
+            yield c['shape'], c['src']
     from vf.props import C04
     for i, s in enumerate(C04.IFACE):
         yield 'iface:%d' % i, s
